@@ -85,6 +85,10 @@ class Ctx:
             if count < 1:
                 raise AnalysisError(rule, site or self.prop, f"no {what} found (anchor vanished)")
             return
+        if count < minimum and minimum >= 6:
+            # an aggregate count (so many obligations / statements of a kind were analysed on the pinned tree): a guard
+            # against a vacuous pass, not an obligation - exit 2, no violation
+            raise AnalysisError(rule, site or self.prop, f"only {count} {what} analysed, {minimum} on the pinned tree (the analysis lost its footing)")
         if count < minimum:
             self.bad(f"{rule}.present", site or self.prop, what, found=f"{count} found", required=f"at least {minimum}: the construct that realises the obligation is present")
             raise AnalysisError(rule, site or self.prop, f"only {count} {what} found, floor is {minimum} (anchor vanished)")
